@@ -429,13 +429,18 @@ impl Peer {
             };
         }
         // read header then body (blocking, with a receive timeout)
+        let t_start = Instant::now();
         let mut hdr = [0u8; 12];
         let mut got = 0;
         let mut rfds = Vec::new();
         while got < 12 {
             match raw_recv(&self.sock, &mut hdr[got..], 0) {
                 Err(e) if e.kind() == std::io::ErrorKind::WouldBlock || e.kind() == std::io::ErrorKind::TimedOut => {
-                    // the receive timeout expired while the connection is still open: no answer
+                    // the receive timeout expired while the connection is still open.  "No answer" only if the daemon thread is
+                    // seen asleep in a blocking call (or is gone, or spins): on a slow machine the wait simply goes on
+                    if !hang_confirmed(t_start, &tids_named("vh-daemon"), &[]) {
+                        continue;
+                    }
                     return Reply {
                         status: "timeout".into(),
                         body: vec![],
@@ -516,6 +521,7 @@ pub struct Rig<V: VringT<GM> + Clone + Send + Sync + 'static> {
     pub restart: Box<dyn FnMut() -> Option<UnixStream> + Send>,
     pub path: String,
     pub handlers_reg: Box<dyn Fn(usize, i32, u64) -> std::io::Result<()> + Send>,
+    pub handlers_unreg: Box<dyn Fn(usize, i32, u64) -> std::io::Result<()> + Send>,
     pub alive: bool,
 }
 
@@ -545,9 +551,15 @@ pub fn make_rig<V: VringT<GM> + Clone + Send + Sync + 'static>(cfg: Cfg, adapter
             let mut d = VhostUserDaemon::new("vh-daemon".to_string(), $backend, mem).unwrap();
             d.start(&mut listener).unwrap();
             let hs = d.get_epoll_handlers();
+            let hs2 = d.get_epoll_handlers();
             let reg: Box<dyn Fn(usize, i32, u64) -> std::io::Result<()> + Send> =
                 Box::new(move |t, fd, id| match hs.get(t) {
                     Some(h) => h.register_listener(fd, EventSet::IN, id),
+                    None => Err(std::io::Error::other("the daemon has no worker for this mask")),
+                });
+            let unreg: Box<dyn Fn(usize, i32, u64) -> std::io::Result<()> + Send> =
+                Box::new(move |t, fd, id| match hs2.get(t) {
+                    Some(h) => h.unregister_listener(fd, EventSet::IN, id),
                     None => Err(std::io::Error::other("the daemon has no worker for this mask")),
                 });
             let d = Arc::new(Mutex::new(Some(d)));
@@ -571,10 +583,10 @@ pub fn make_rig<V: VringT<GM> + Clone + Send + Sync + 'static>(cfg: Cfg, adapter
                 s.set_read_timeout(Some(Duration::from_millis(3000))).ok()?;
                 Some(s)
             });
-            (reg, dropper, restart)
+            (reg, unreg, dropper, restart)
         }};
     }
-    let (reg, dropper, restart) = match adapter {
+    let (reg, unreg, dropper, restart) = match adapter {
         "mutex" => build!(Arc::new(Mutex::new(TBMut(tb.clone())))),
         "rwlock" => build!(Arc::new(RwLock::new(TBMut(tb.clone())))),
         _ => build!(tb.clone()),
@@ -598,6 +610,7 @@ pub fn make_rig<V: VringT<GM> + Clone + Send + Sync + 'static>(cfg: Cfg, adapter
         logfile: None,
         dropper,
         handlers_reg: reg,
+        handlers_unreg: unreg,
         alive: true,
     };
     // the workers name themselves when they start running: wait until all of them can be seen, so that a later
